@@ -113,6 +113,9 @@ pub struct Crash {
 
 #[derive(Clone, Debug, Default)]
 pub struct Policy {
+    /// the node is shutting down: the input is handled under a context that is already cancelled
+    /// (graceful shutdown, a sibling task failed, end of the epoch), then the process exits
+    pub shutdown: bool,
     pub crash: Option<Crash>,
     /// finalized blocks that block sync may deliver when the handler waits for a predecessor
     pub sync: Vec<v2::FinalBlock>,
@@ -326,6 +329,24 @@ fn through_the_codec(state: &ReplicaState) -> ctx::Result<ReplicaState> {
 
 // ---------------------------------------------------------------------------------------------
 
+async fn handle_input(ctx: &ctx::Ctx, replica: &mut bv::Replica, input: &Input, cfg: &Arc<Config>, key: &validator::SecretKey, mgr: &Arc<EngineManager>, proposal_out: &mut Option<SignedMsg>) -> Result<(), String> {
+    match input {
+        Input::Msg(m) => replica.handle(ctx, m.clone()).await,
+        Input::Timeout => replica.fire_timeout(ctx).await,
+        Input::Propose(j) => {
+            // the proposer runs under ctx.with_timeout(view_timeout)
+            match bv::create_proposal(&ctx.with_timeout(time::Duration::seconds(VIEW_TIMEOUT_S)), cfg.clone(), j.clone()).await {
+                Ok(p) => {
+                    *proposal_out = Some(key.sign_msg(validator::ConsensusMsg::V2(v2::ChonkyMsg::LeaderProposal(p))));
+                    Ok(())
+                }
+                Err(e) => Err(format!("{e:?}")),
+            }
+        }
+        Input::Sync(b) => mgr.queue_block(ctx, b.clone().into()).await.map_err(|e| format!("{e:?}")),
+    }
+}
+
 /// Runs one real transition of validator `idx`.
 pub fn step(w: &World, idx: usize, local: &Local, input: &Input, policy: &Policy) -> StepOut {
     let ch = core::Chooser::new(vec![], None);
@@ -351,6 +372,7 @@ pub fn step(w: &World, idx: usize, local: &Local, input: &Input, policy: &Policy
     let key = w.c.keys[idx].clone();
     let snap = local.snap.clone();
     let sync_pool = policy.sync.clone();
+    let policy_shutdown = policy.shutdown;
     let input = input.clone();
     let epoch = w.c.epoch;
 
@@ -408,21 +430,17 @@ pub fn step(w: &World, idx: usize, local: &Local, input: &Input, policy: &Policy
             let mut blocked = false;
             let mut proposal_out: Option<SignedMsg> = None;
             let outcome: Option<Result<(), String>> = {
+                let shutdown = policy_shutdown;
                 let fut = async {
-                    match input {
-                        Input::Msg(m) => replica.handle(ctx, m.clone()).await,
-                        Input::Timeout => replica.fire_timeout(ctx).await,
-                        Input::Propose(j) => {
-                            // the proposer runs under ctx.with_timeout(view_timeout)
-                            match bv::create_proposal(&ctx.with_timeout(time::Duration::seconds(VIEW_TIMEOUT_S)), cfg2.clone(), j.clone()).await {
-                                Ok(p) => {
-                                    proposal_out = Some(key.sign_msg(validator::ConsensusMsg::V2(v2::ChonkyMsg::LeaderProposal(p))));
-                                    Ok(())
-                                }
-                                Err(e) => Err(format!("{e:?}")),
-                            }
-                        }
-                        Input::Sync(b) => mgr2.queue_block(ctx, b.clone().into()).await.map_err(|e| format!("{e:?}")),
+                    if shutdown {
+                        let r: Result<Result<(), String>, ctx::Canceled> = scope::run!(ctx, |hctx, hs| async {
+                            hs.cancel();
+                            Ok(handle_input(hctx, &mut replica, input, cfg2, key, mgr2, &mut proposal_out).await)
+                        })
+                        .await;
+                        r.unwrap_or_else(|_| Err("Canceled".into()))
+                    } else {
+                        handle_input(ctx, &mut replica, input, cfg2, key, mgr2, &mut proposal_out).await
                     }
                 };
                 let driven = sched::drive_drop(idle2, fut, |_k| {
@@ -477,7 +495,7 @@ pub fn step(w: &World, idx: usize, local: &Local, input: &Input, policy: &Policy
     // an internal error of a handler ends StateMachine::run: the consensus component stops and the
     // node has to be restarted - for the search that is a crash at that point
     let stopped = matches!(&res.outcome, Some(Err(e)) if e.starts_with("Internal") && !e.contains("Canceled"));
-    let crashed = eng.0.crashed.load(SeqCst) || panicked.is_some() || (stopped && policy.crash.is_some_and(|c| c.fail));
+    let crashed = eng.0.crashed.load(SeqCst) || panicked.is_some() || (stopped && policy.crash.is_some_and(|c| c.fail)) || policy.shutdown;
     let durable = eng.0.state.lock().unwrap().clone();
     let blocks: Vec<v2::FinalBlock> = eng
         .0
